@@ -72,6 +72,11 @@ var (
 	signedVals    = []string{"", "0", "-5", "-1", "3"}
 	signedSamples = samples3([]string{"a", "b", "c"}, []string{"r", "q"}, signedVals)
 	signedSmall   = samples3([]string{"a", "b"}, []string{"r", "q"}, signedVals)
+	// "legend" tables for the heatmap's scale legend: values spread over the
+	// decades (absent value = 1, 7, 1000: distinct positions under linear, log2
+	// and log10), a one-rune and a four-rune row key (the key column widens
+	// between two frames), two columns.
+	legendSamples = samples3([]string{"a", "b"}, []string{"r", "wxyz"}, []string{"", "7", "1000"})
 	// pools for the "wide" states: one sample per chosen key
 	widePool = []string{"", "a", "b", "cd", "efg", "hijklmnop", keyEsc}
 )
@@ -243,7 +248,42 @@ func signedCfgs(family string, reduced, quick bool) []Cfg {
 	return out
 }
 
+// legendFixes: heatmap --min/--max for the legend tables (cells 1..~3000): no
+// bound; --min alone (below every cell; inside the data); --max alone (inside
+// the data; above every cell); both (wider than the data; narrower: clamps on
+// both sides; from 1 to a power of ten and of two; a degenerate range).
+var legendFixes = []heatFix{{}, {true, false, 0, 0}, {true, false, 5, 0}, {false, true, 0, 100}, {false, true, 0, 5000},
+	{true, true, 0, 5000}, {true, true, 3, 500}, {true, true, 1, 10000}, {true, true, 1, 1024}, {true, true, 7, 7}}
+
+// legendCfgs: every combination of {no fixed bound, --min, --max, both} x scale
+// x formatter {default, expression} (and colour/unicode, limits).
+func legendCfgs(reduced, quick bool) []Cfg {
+	var out []Cfg
+	cus, lims, fixes := cu4, [][2]int{{5, 5}, {1, 1}, {2, 1}}, legendFixes
+	if quick {
+		cus, lims = cu2, lims[:2]
+	}
+	if reduced {
+		cus, lims, fixes = cu2, lims[:1], []heatFix{legendFixes[0], legendFixes[2], legendFixes[3], legendFixes[5], legendFixes[6]}
+	}
+	for _, sc := range scaleNames {
+		for _, cu := range cus {
+			for _, p := range lims {
+				for _, fx := range fixes {
+					for _, f := range []string{"", exprFormat} {
+						out = append(out, Cfg{Scale: sc, Color: cu[0], Unicode: cu[1], Rows: p[0], Cols: p[1], FixMin: fx.fmin, FixMax: fx.fmax, Min: fx.min, Max: fx.max, Format: f})
+					}
+				}
+			}
+		}
+	}
+	return out
+}
+
 func cfgsOf(ps pass, quick bool) []Cfg {
+	if ps.legend {
+		return legendCfgs(ps.reduced, quick)
+	}
 	if ps.signed {
 		return signedCfgs(ps.family, ps.reduced, quick)
 	}
@@ -282,36 +322,41 @@ type pass struct {
 	maxLen  int
 	reduced bool
 	signed  bool // the signed-table passes (signedCfgs)
+	legend  bool // the heatmap legend passes (legendCfgs)
 }
 
 func passes(quick bool) []pass {
 	ps := []pass{
-		{"histo", histoSamples, 0, 2, false, false},
-		{"histo", histoSamples, 3, 3, true, false},
-		{"bars", barsSamples, 0, 2, false, false},
-		{"bars", barsSamples, 3, 3, true, false},
-		{"table", tableSamples, 0, 2, false, false},
-		{"spark", tableSamples, 0, 2, false, false},
-		{"reduce", reduceSamples, 0, 3, false, false},
-		{"heatmap", tableSamples, 0, 2, false, false},
+		{family: "histo", samples: histoSamples, minLen: 0, maxLen: 2, reduced: false},
+		{family: "histo", samples: histoSamples, minLen: 3, maxLen: 3, reduced: true},
+		{family: "bars", samples: barsSamples, minLen: 0, maxLen: 2, reduced: false},
+		{family: "bars", samples: barsSamples, minLen: 3, maxLen: 3, reduced: true},
+		{family: "table", samples: tableSamples, minLen: 0, maxLen: 2, reduced: false},
+		{family: "spark", samples: tableSamples, minLen: 0, maxLen: 2, reduced: false},
+		{family: "reduce", samples: reduceSamples, minLen: 0, maxLen: 3, reduced: false},
+		{family: "heatmap", samples: tableSamples, minLen: 0, maxLen: 2, reduced: false},
 		{family: "heatmap", samples: signedSmall, minLen: 0, maxLen: 3, signed: true},
 		{family: "spark", samples: signedSmall, minLen: 0, maxLen: 3, signed: true},
+		{family: "heatmap", samples: legendSamples, minLen: 0, maxLen: 2, legend: true},
+		{family: "heatmap", samples: legendSamples, minLen: 3, maxLen: 3, reduced: true, legend: true},
 	}
 	if !quick {
 		ps = []pass{
-			{"histo", histoSamples, 0, 3, false, false},
-			{"bars", barsSamples, 0, 3, false, false},
-			{"table", tableSamples, 0, 2, false, false},
-			{"table", tableSamples, 3, 3, true, false},
-			{"spark", tableSamples, 0, 2, false, false},
-			{"spark", tableSamples, 3, 3, true, false},
-			{"reduce", reduceSamples, 0, 4, false, false},
-			{"heatmap", tableSamples, 0, 2, false, false},
-			{"heatmap", tableSamples, 3, 3, true, false},
+			{family: "histo", samples: histoSamples, minLen: 0, maxLen: 3, reduced: false},
+			{family: "bars", samples: barsSamples, minLen: 0, maxLen: 3, reduced: false},
+			{family: "table", samples: tableSamples, minLen: 0, maxLen: 2, reduced: false},
+			{family: "table", samples: tableSamples, minLen: 3, maxLen: 3, reduced: true},
+			{family: "spark", samples: tableSamples, minLen: 0, maxLen: 2, reduced: false},
+			{family: "spark", samples: tableSamples, minLen: 3, maxLen: 3, reduced: true},
+			{family: "reduce", samples: reduceSamples, minLen: 0, maxLen: 4, reduced: false},
+			{family: "heatmap", samples: tableSamples, minLen: 0, maxLen: 2, reduced: false},
+			{family: "heatmap", samples: tableSamples, minLen: 3, maxLen: 3, reduced: true},
 			{family: "heatmap", samples: signedSamples, minLen: 0, maxLen: 3, signed: true},
 			{family: "spark", samples: signedSamples, minLen: 0, maxLen: 3, signed: true},
 			{family: "heatmap", samples: signedSmall, minLen: 4, maxLen: 4, reduced: true, signed: true},
 			{family: "spark", samples: signedSmall, minLen: 4, maxLen: 4, reduced: true, signed: true},
+			{family: "heatmap", samples: legendSamples, minLen: 0, maxLen: 3, legend: true},
+			{family: "heatmap", samples: legendSamples, minLen: 4, maxLen: 4, reduced: true, legend: true},
 		}
 	}
 	return ps
@@ -814,11 +859,16 @@ func rule(prop, tier string) string {
 		if ps.signed {
 			name += fmt.Sprintf("(signed tables, %d samples)", len(ps.samples))
 		}
+		if ps.legend {
+			name += fmt.Sprintf("(legend tables, %d samples)", len(ps.samples))
+		}
 		fmt.Fprintf(&sb, "%s len %d..%d x %d configs; ", name, ps.minLen, ps.maxLen, len(cfgsOf(ps, quick)))
 	}
 	fmt.Fprintf(&sb, "sample alphabets (NUL-separated): histo {%s}; bars {keys \"\",a,40-rune,ESC[31mqESC[0m x subkeys \"\",x,y x values none,0,-1,2^57,2^58}; table/heatmap/spark {columns \"\",a,bcd,escape-key x rows \"\",r,40-rune,escape-key x values none,0,-1,5,MaxInt64}; reduce {keys x values \"\",0,-1,5 with -g k={1} -a sum={sumi {.} {2}} -a last={2} -a n={sumi {.} 1}}. ", qs(histoSamples[:5]))
 	sb.WriteString("Configurations (full grids): histo scale{linear,log2,log10} x colour x unicode x -n{0,1,2,5} x -x x format{default, expression <{0}|{1}|{2}> built by helpers.BuildFormatter (depends on value, min and max)} x sort{value, and text when bars are shown or the expression format is used}; bars stacked/grouped x scale{unset,log2,log10 (grouped only)} x colour x unicode x format; table colour x (rows,cols) in {(0,0),(1,1),(2,2),(5,5),(1,5),(5,1),(0,5),(5,0)} x -x x format; heatmap scale x colour x unicode x those limits x {auto, --min 0 --max 2, --min 1, --min 5 --max 1}; spark scale x colour x unicode x limits x notruncate x format (quick tier: heatmap and spark without the limits (0,5),(5,0), heatmap without --min 1, spark default format only); reduce colour x 8 (rows,cols) limits. Reduced grids (used for the longest histories) are subsets: colour+unicode both on/off, linear+log2, 2-3 limit pairs. ")
 	sb.WriteString("Signed tables (heatmap and spark; cells mixing negative, zero, absent (= 0) and positive totals, sums of repeated samples included, all-negative tables with an absent cell included): sample alphabet columns {a,b[,c]} x rows {r,q} x values {none(=1),0,-5,-1,3} (30 samples with column c, 20 without; the pass list says which); heatmap scale{linear,log2,log10} x colour x unicode x limits {(5,5),(2,2),(1,5),(5,1)} x range {auto, --min -10, --min -10 --max 10, --min -3 --max 2, --max -2, --min -7 --max -2, --min -1}; spark scale x colour x unicode x those limits x notruncate; quick tier: colour+unicode both on/off, limits (5,5),(2,2), without --min -1; the length-4 pass of the thorough tier: colour+unicode both on/off, limits (5,5), heatmap range {auto, --min -10, --min -3 --max 2}. Judged there as everywhere: within one rendered heatmap/sparkline the drawn cell (palette index / glyph index) is a monotone non-decreasing function of the cell's value (equal values drawn identically, a larger value never drawn colder/lower) and every row has one cell per displayed column. ")
+	sb.WriteString("Legend tables (heatmap; the pass list says lengths and numbers of configurations): sample alphabet columns {a,b} x rows {r,wxyz} x values {none(=1),7,1000} (12 samples), ALL histories with ALL subsets of intermediate render points (single-frame and multi-frame; the key column widens between frames), driven exactly in the order of cmd/heatmap.go (FixedMin/FixedMax, UpdateMinMax(min,max) when a bound is given, THEN Scaler and Formatter are assigned, then WriteTable per frame); grid scale{linear,log2,log10} x colour x unicode x limits {(5,5),(1,1),(2,1)} x range {none, --min 0, --min 5, --max 100, --max 5000, --min 0 --max 5000, --min 3 --max 500, --min 1 --max 10000, --min 1 --max 1024, --min 7 --max 7} x format {default, expression}; quick tier: colour+unicode both on/off, limits (5,5),(1,1); reduced grid (longest histories): colour+unicode both on/off, limits (5,5), range {none, --min 5, --max 100, --min 0 --max 5000, --min 3 --max 500}. The history family renders the heatmap also with --scale log10 --min 1 --max 50 and --scale log2 --max 50 under the expression format. ")
+	sb.WriteString("Heatmap LEGEND (line 0; judged in EVERY heatmap case of every family as it stands after the final render): it parses as indent + up to 6 'cell number' pairs separated by four blanks; every number is an integer rendered by the CHOSEN formatter (default: humanize.Hi read back; expression: <v|min|max> with (min,max) = the range the cells are scaled with, i.e. the fixed bounds where given else the table's ComputeMinMax, or the table's range); legend and column header of the same frame start in the same column (when a column is displayed); and, where the top of the scale is representable in int64 (linear: float64(max) < 2^63, log2: max <= 2^62, log10: max <= 10^18; a degenerate range counts as min..min+1): the values never decrease and neither do the cells, for min < max the legend brackets the range (first <= min - under a log scale max(min,1) -, last >= max, both up to 2^-45 of the magnitude of the ends), and the cell next to value v equals the cell the real renderer draws for a table cell of value v on a probe (fresh heatmap, same --scale, --min/--max pinned to the effective range, one row holding exactly the legend's values). Bargraph key line (line 0 when there is a non-empty sub-key): lists exactly the sub-keys of the rendered state in order, each behind its key glyph. ")
 	fmt.Fprintf(&sb, "Wide states: every non-empty subset of the key pool {%s}, one sample per key, limits 0..8. ", qs(widePool))
 	fmt.Fprintf(&sb, "Laws: termscaler Scale/Bucket/LengthVal/ScaleKeys for linear, log2, log10 over (val,min,max) in G^3, |G|=%d including Min/MaxInt64; termunicode BarWrite/HeatWrite/SparkWrite over %d unit values x colour x unicode x max length {0,1,2,7,50}. ", len(gridValues(quick)), len(unitGrid()))
 	sp := sweepParams(quick)
@@ -843,6 +893,7 @@ func main() {
 				"visible width = runes outside SGR sequences (ESC [ digits ; m); double-width glyphs are not covered",
 				"text that is not valid UTF-8: every byte that is not part of a valid UTF-8 sequence occupies ONE column (a terminal shows one replacement glyph for it; Go's rune decoding yields one utf8.RuneError per such byte, which is what the unchanged renderers and fmt's padding count); so the two bytes of a truncated 3-byte sequence are two columns. A terminal that draws one glyph for a whole truncated sequence, or nothing for such bytes, is not covered. The oracle reads a raw undecodable byte and U+FFFD in its place as the same visible cell (a renderer may pass the byte through or substitute U+FFFD)",
 				"the default formatter's text is taken from humanize.Hi itself (its correctness is C11); the expression formatter <{0}|{1}|{2}> is compared with an independent decimal rendering of (value, min, max): for tabulate and spark min/max must be the table's ComputeMinMax of the rendered state; for histogram and bargraph every judged line of the final render must have been formatted with the same (min, max) and max must not be below a displayed value (the renderers pass 0 and a running maximum that never decreases; how often it differs from the final maximum is counted, not judged)",
+				"heatmap legend: which scale positions the legend shows is not prescribed (any non-decreasing list of at most 6 values that brackets the range and whose cells are the cells of those values is accepted); a legend whose top value is not representable in int64 (range reaching beyond 2^62 / 10^18 / 2^63-512, where int64(2^63) wraps) is judged for the format of its numbers and its indentation only (legend values are scale positions, not aggregated numbers; recorded in FINDINGS.md 'Not reported'); the indentation of legend and header is compared within one frame only (both are drawn before the frame's rows widen the key column; across different numbers of frames the indentation differs: known finding C03/heatmap/snapshot-differs/indentation-only)",
 				"row/column order is taken from the aggregator's Ordered*/ItemsSorted* calls with the command's default sorters (ordering is C13)",
 				"between two renders the aggregators fold commutatively, so only one order of the samples of a segment is executed",
 				"history family: what the renderers keep on purpose is not judged: column and key widths only grow (a long-lived renderer may pad wider than a fresh one; the columns must still line up), histogram and bargraph scale against a running maximum that never decreases (so these two are judged by their own oracles only, not against a fresh renderer), footer lines below the data are not compared",
